@@ -9,7 +9,9 @@ M=/dev/shm/verif-mut
 # one rehearsal at a time: the scratch copies are shared (warm cargo target)
 exec 9>/dev/shm/verif-mut.lock; flock 9
 mkdir -p $M/repo $M/verif $M/work
-rsync -a --delete --exclude target --exclude .git /repo/ $M/repo/
+# rsync keeps modification times: a file put back to an OLDER version (the previous run's patch undone) would look unchanged
+# to cargo and the previous mutation would stay compiled in.  Every file rsync rewrites is touched.
+rsync -ai --delete --exclude target --exclude .git /repo/ $M/repo/ | grep '^>f' | cut -d' ' -f2- | while read f; do touch "$M/repo/$f"; done
 rsync -a --delete --exclude target --exclude .git --exclude evidence --exclude replays /verif/ $M/verif/
 mkdir -p $M/verif/evidence $M/verif/replays
 sed -i "s#/repo/#$M/repo/#g" $M/verif/harness/Cargo.toml $M/verif/harness/src/main.rs $M/verif/cfkit/Cargo.toml
